@@ -8,7 +8,7 @@
   each partition on its own, concatenate.
 
   Deviation switches = defects of the unchanged tree (all off = the intended algorithm):
-    * `ignoreFetch`        — C08-F1: the spilled path never applies `fetch` (ORDER BY … LIMIT k returns every row)
+    * `ignoreFetch`        — C08-F1 (repaired by 6bbb4e5): the spilled path never applied `fetch` (ORDER BY … LIMIT k returned every row)
     * `mergeNullsByDir`    — C08-F2: `compare_array_values` puts NULLs last and `compare_rows` reverses the WHOLE comparison for
                              DESC keys, so the merge orders NULLs "last for ASC, first for DESC" whatever NULLS FIRST/LAST says,
                              while the runs were sorted with the requested placement
